@@ -8,11 +8,11 @@ Developer command (not registered in MANIFEST)."""
 import concurrent.futures, json, os, shutil, subprocess, sys
 ROOT = os.path.dirname(os.path.dirname(os.path.abspath(__file__)))
 IDS = ["C%02d" % i for i in range(1, 21)]
-MX = "/tmp/mx"
+MX = os.environ.get("PMATRIX_DIR", "/tmp/mx")
 
 
 def one(args):
-    name, patch, ids, inner = args
+    name, patch, ids, inner, tier = args
     wt = os.path.join(MX, name)
     cache, ev = wt + ".cache", wt + ".ev"
     for d in (wt, cache, ev):
@@ -35,7 +35,7 @@ def one(args):
         subprocess.run([sys.executable, os.path.join(ROOT, "rules", "lib", "facts.py")], capture_output=True, env=env)
 
         def run_check(pid):
-            r = subprocess.run([os.path.join(ROOT, "bin", "check"), pid], capture_output=True, text=True, cwd=ROOT, env=env)
+            r = subprocess.run([os.path.join(ROOT, "bin", "check"), pid, "--tier", tier], capture_output=True, text=True, cwd=ROOT, env=env)
             rules = sorted(set(l.split()[0] for l in r.stdout.splitlines() if l.startswith(pid + ".")))
             lines = [l[:300] for l in r.stdout.splitlines() if l.startswith(pid + ".") or l.startswith(("ANALYSIS", "UNDECIDED")) or "Error" in l][:4]
             return pid, {"exit": r.returncode, "rules": rules, "lines": lines}
@@ -55,8 +55,9 @@ def main():
     #                                 known_findings.json names for that commit must fire again
     jobs = int(a[a.index("--jobs") + 1]) if "--jobs" in a else 4
     ids = a[a.index("--checks") + 1].split(",") if "--checks" in a else IDS
+    tier = a[a.index("--tier") + 1] if "--tier" in a else "quick"
     skip = set()
-    for flag in ("--jobs", "--checks"):
+    for flag in ("--jobs", "--checks", "--tier"):
         if flag in a:
             skip.add(a.index(flag)); skip.add(a.index(flag) + 1)
     names = [x for i, x in enumerate(a) if i not in skip and not x.startswith("--")]
@@ -72,7 +73,10 @@ def main():
     out = json.load(open(mp)) if os.path.exists(mp) else {}
     os.makedirs(MX, exist_ok=True)
     inner = max(1, 16 // jobs)
-    work = [(n, os.path.join(base, n, "patch.diff"), ids, inner) for n in names]
+    work = [(n, os.path.join(base, n, "patch.diff"), ids, inner, tier) for n in names]
+    if tier != "quick":
+        mp = mp.replace(".json", "_%s.json" % tier)
+        out = json.load(open(mp)) if os.path.exists(mp) else {}
     bad = 0
     with concurrent.futures.ThreadPoolExecutor(max_workers=jobs) as ex:
         for name, res in ex.map(one, work):
